@@ -789,12 +789,15 @@ func TestC29(t *testing.T) {
 		}
 		add(vt.Case{"layout": name, "conc": conc, "phase": "none", "kind": "none", "ord": "first", "k": 0, "downtime": 0, "mode": "outage"})
 		// phase 2: ONE read of the run fails (a fault that does not persist): the k-th bucket read of the compaction
-		// run / of the cleaning run; the following runs are fault-free (thorough: every read of three layouts)
+		// run / of the cleaning run; the following runs are fault-free (thorough: every read of aligned5, every third read of replica and twogroups)
 		if name == "aligned5" || name == "replica" || name == "twogroups" {
 			for _, phase := range []string{"compact", "clean"} {
 				n := len(ref["reads-"+phase])
 				for k := 1; k <= n; k++ {
 					if !vt.Thorough() && rnd.Intn(n) >= 3 {
+						continue
+					}
+					if vt.Thorough() && name != "aligned5" && k%3 != int(vt.Seed()%3) {
 						continue
 					}
 					add(vt.Case{"layout": name, "conc": conc, "phase": phase, "kind": "", "ord": "", "k": k, "downtime": []int{0, 5}[rnd.Intn(2)], "mode": "readfault", "gw": k%7 == 0})
